@@ -1759,15 +1759,22 @@ class SpaceUpdater(SharedSpaceOperations):
             mro = self._graph.get_mro(desc)
 
             # Check name conflict between spaces, cells, refs
-            members = {}
-            for attr in ["spaces", "cells", "refs"]:
+            # Child spaces are not inherited.
+            members = {
+                "spaces": set(self._graph.to_space(desc).named_spaces.keys())
+            }
+            for attr in ["cells", "own_refs"]:
                 namechain = []
                 for sname in mro:
                     space = self._graph.to_space(sname)
                     namechain.append(set(getattr(space, attr).keys()))
                 members[attr] = set().union(*namechain)
 
-            conflict = set().intersection(*[n for n in members.values()])
+            conflict = (
+                (members["spaces"] & members["cells"])
+                | (members["spaces"] & members["own_refs"])
+                | (members["cells"] & members["own_refs"])
+            )
             if conflict:
                 raise NameError("name conflict: %s" % conflict)
 
